@@ -24,64 +24,9 @@ theorem incVal_mod (f n : Int) : f + incVal f n true = (f / n + 1) * n := by
   rw [Int.add_mul, Int.one_mul, Int.mul_comm (f / n) n]
   omega
 
-theorem incI64_eq {f n : Int} (m : Bool) (hf : 0 ≤ f) (hn : 1 ≤ n) (hnb : n ≤ I64_MAX) :
-    incI64 f n m = .ok (incVal f n m) := by
-  cases m
-  · simp [incI64, incVal]
-  · have h1 := Int.emod_nonneg f (b := n) (by omega)
-    have h2 := Int.emod_lt_of_pos f (b := n) (by omega)
-    have hne : n ≠ 0 := by omega
-    have hm1 : n ≠ -1 := by omega
-    simp only [I64_MAX] at hnb
-    have hr : I64_MIN ≤ n - f % n ∧ n - f % n ≤ I64_MAX := by
-      simp only [I64_MIN, I64_MAX]; omega
-    simp [incI64, incVal, remS, hne, hm1, Int.tmod_eq_emod_of_nonneg hf, chkI64, hr]
-
-theorem dur_ok {mult k : Int} (h : -DUR_MAX ≤ k * mult ∧ k * mult ≤ DUR_MAX) :
-    dur mult k = .ok (k * mult) := by
-  simp only [DUR_MAX] at h
-  have : I64_MIN ≤ k * mult ∧ k * mult ≤ I64_MAX ∧ -DUR_MAX ≤ k * mult ∧ k * mult ≤ DUR_MAX := by
-    simp only [I64_MIN, I64_MAX, DUR_MAX]; omega
-  simp [dur, this]
-
-theorem dtAdd_ok {t s : Int} (h : DT_MIN ≤ t + s ∧ t + s ≤ DT_MAX) : dtAdd t s = .ok (t + s) := by
-  simp [dtAdd, h]
-
 /-- monotonicity used for the bounds: `0 ≤ a ≤ b`, `0 ≤ m` gives `a * m ≤ b * m` -/
 theorem mul_le_of_le {a b m : Int} (hab : a ≤ b) (hm : 0 ≤ m) : a * m ≤ b * m :=
   Int.mul_le_mul_of_nonneg_right hab hm
-
-/-- the chain `increment → Duration → DateTime + Duration` of the second/minute/hour/day branches -/
-theorem addUnits_eq {time f n mult : Int} (m : Bool) (hf : 0 ≤ f) (hn : 1 ≤ n) (hmult : 1 ≤ mult)
-    (hdur : n * mult ≤ DUR_MAX) (hlo : DT_MIN ≤ time) (hhi : time + n * mult ≤ DT_MAX) :
-    bind (incI64 f n m) (fun inc => bind (dur mult inc) (fun d => dtAdd time d))
-      = .ok (time + incVal f n m * mult) := by
-  obtain ⟨hi1, hi2⟩ := incVal_bounds (f := f) m hn
-  have hmono : incVal f n m * mult ≤ n * mult := mul_le_of_le hi2 (by omega)
-  have hpos : 1 * mult ≤ incVal f n m * mult := mul_le_of_le hi1 (by omega)
-  have hnb : n ≤ I64_MAX := by
-    have : n * 1 ≤ n * mult := Int.mul_le_mul_of_nonneg_left hmult (by omega)
-    simp only [DUR_MAX] at hdur; simp only [I64_MAX]; omega
-  rw [incI64_eq m hf hn hnb, bind_ok, dur_ok (by simp only [DUR_MAX] at hdur ⊢; omega), bind_ok,
-    dtAdd_ok (by omega)]
-
-
-/-- the chain of the week branch: `time + Duration::weeks(inc) - Duration::days(weekday)` -/
-theorem addWeeks_eq {time f n wd : Int} (m : Bool) (hf : 0 ≤ f) (hn : 1 ≤ n)
-    (hdur : n * 604800 ≤ DUR_MAX) (hwd : 0 ≤ wd ∧ wd ≤ 6) (hlo : DT_MIN + 518400 ≤ time)
-    (hhi : time + n * 604800 ≤ DT_MAX) :
-    bind (incI64 f n m) (fun inc => bind (dur 604800 inc) fun dw => bind (dtAdd time dw) fun t1 =>
-      bind (dur 86400 wd) fun dd => dtAdd t1 (-dd))
-      = .ok (time + incVal f n m * 604800 - wd * 86400) := by
-  obtain ⟨hi1, hi2⟩ := incVal_bounds (f := f) m hn
-  have hnb : n ≤ I64_MAX := by simp only [DUR_MAX] at hdur; simp only [I64_MAX]; omega
-  simp only [DUR_MAX, DT_MIN, DT_MAX] at *
-  rw [incI64_eq m hf hn hnb, bind_ok, dur_ok (by simp only [DUR_MAX]; omega), bind_ok,
-    dtAdd_ok (by simp only [DT_MIN, DT_MAX]; omega), bind_ok, dur_ok (by simp only [DUR_MAX]; omega), bind_ok,
-    dtAdd_ok (by simp only [DT_MIN, DT_MAX]; omega)]
-  congr 1
-
-/-! ### chrono in a zone of constant offset -/
 
 /-- local seconds of the civil time the code truncates `current` to -/
 def truncLocal (L : Int) : IUnit → Int
@@ -90,28 +35,10 @@ def truncLocal (L : Int) : IUnit → Int
   | .hour => L - L % 3600
   | _ => L - L % 86400
 
-/-- What chrono tells the code about the instant whose local seconds are `L`, in a zone whose UTC
-offset is the constant `off`: the time-of-day fields and the weekday are those of `L` (1970-01-01
-was a Thursday), ordinal and ISO week number are non-negative, and the truncated civil time
-resolves to the single instant `truncLocal L u - off`. -/
-structure FixedOffsetView (c : Civil) (L off : Int) (mk : CivilTime → LocalResult) : Prop where
-  second : c.second = L % 60
-  minute : c.minute = L / 60 % 60
-  hour : c.hour = L / 3600 % 24
-  weekday : c.weekday = (L / 86400 + 3) % 7
-  ordinal0 : 0 ≤ c.ordinal0
-  week0 : 0 ≤ c.week0
-  mk_trunc : ∀ u, isCalendarUnit u = false → mk (truncated c u) = .single (truncLocal L u - off)
-
 theorem startOfUnit_le (c : Civil) (L : Int) (u : IUnit) (hwd : 0 ≤ c.weekday ∧ c.weekday ≤ 6)
     (hu : isCalendarUnit u = false) :
     startOfUnit c L u ≤ L ∧ L < startOfUnit c L u + unitSecs u := by
   cases u <;> simp [isCalendarUnit] at hu <;> simp only [startOfUnit, unitSecs] <;> omega
-
-theorem field_nonneg {c : Civil} {L off : Int} {mk : CivilTime → LocalResult}
-    (h : FixedOffsetView c L off mk) (u : IUnit) (hu : isCalendarUnit u = false) : 0 ≤ fieldOf c u := by
-  have := h.second; have := h.minute; have := h.hour; have := h.ordinal0; have := h.week0
-  cases u <;> simp [isCalendarUnit] at hu <;> simp only [fieldOf] <;> omega
 
 /-! ### the repaired algorithm -/
 
@@ -256,18 +183,75 @@ theorem scheduleFixed_ok (t maxDelay d : Int) (hd : 0 ≤ d) :
     · exact ⟨t, rfl, Int.le_refl t⟩
   · exact ⟨t, rfl, Int.le_refl t⟩
 
-theorem runFixed_eq_run (steps : List (Int × Out Int)) (h : ∀ p ∈ steps, ∃ t, p.2 = .ok t) (st : TState) :
-    runFixed st steps = run st steps := by
-  induction steps generalizing st with
-  | nil => rfl
-  | cons p rest ih =>
-    obtain ⟨a, r⟩ := p
-    obtain ⟨t, ht⟩ := h (a, r) (by simp)
-    simp only at ht
-    subst ht
-    have hs : stepFixed st a (.ok t) = step st a (.ok t) := by
-      cases st <;> simp only [stepFixed, step] <;> split <;> rfl
-    simp only [runFixed, run, hs]
-    rw [ih (fun p hp => h p (by simp [hp]))]
+
+/-- `resolve_after` on a local time that exists: one look at chrono -/
+theorem resolveAfter_resolve1 {mkL : Int → LocalResult} {now l : Int} (fuel : Nat) (h : mkL l ≠ .none) :
+    resolveAfter mkL now (fuel + 1) l = resolve1 now (mkL l) := by
+  unfold resolveAfter
+  cases hm : mkL l with
+  | single t => rfl
+  | ambiguous a b => rfl
+  | none => exact absurd hm h
+
+/-- `resolve_after` on a local time in a DST gap: if the local times `l, l + 15 min, …` do not
+exist for `k` steps and the next one does (`k` below the 200 iterations of the loop, inside chrono's
+range), the answer is chrono's for `l + k · 15 min` — the first step that exists. -/
+theorem resolveAfter_gap {mkL : Int → LocalResult} {now : Int} (k : Nat) :
+    ∀ (fuel : Nat) (l : Int), k < fuel →
+      (∀ j : Nat, j < k → mkL (l + 900 * j) = .none) →
+      (∀ j : Nat, j < k → DT_MIN ≤ l + 900 * (j + 1) ∧ l + 900 * (j + 1) ≤ DT_MAX) →
+      mkL (l + 900 * k) ≠ .none →
+      resolveAfter mkL now fuel l = resolve1 now (mkL (l + 900 * k)) := by
+  induction k with
+  | zero =>
+    intro fuel l hk _ _ hex
+    obtain ⟨f, rfl⟩ : ∃ f, fuel = f + 1 := ⟨fuel - 1, by omega⟩
+    simpa using resolveAfter_resolve1 (now := now) f (by simpa using hex)
+  | succ k ih =>
+    intro fuel l hk hnone hrange hex
+    obtain ⟨f, rfl⟩ : ∃ f, fuel = f + 1 := ⟨fuel - 1, by omega⟩
+    have h0 : mkL l = .none := by simpa using hnone 0 (by omega)
+    have hr0 := hrange 0 (by omega)
+    unfold resolveAfter
+    rw [h0]
+    simp only [Int.natCast_zero, Int.zero_add, Int.mul_one] at hr0
+    simp only [hr0, and_self, if_true]
+    have := ih f (l + 900) (by omega)
+      (fun j hj => by have := hnone (j + 1) (by omega); rw [← this]; congr 1; push_cast; omega)
+      (fun j hj => by have := hrange (j + 1) (by omega); push_cast at this ⊢; omega)
+      (by rw [show l + 900 + 900 * (k : Int) = l + 900 * ((k + 1 : Nat) : Int) by push_cast; omega]; exact hex)
+    rw [this]
+    congr 2
+    push_cast; omega
+
+/-- the specification's boundary of a fixed-length unit is at most `n` units after the start of the
+current unit (and that start is not after `L`) -/
+theorem expectedLocal_le (c : Civil) (L : Int) (u : IUnit) (hu : isCalendarUnit u = false) (n : Int) (m : Bool)
+    (hn : 1 ≤ n) : expectedLocal c L u n m ≤ startOfUnit c L u + n * unitSecs u := by
+  have hmod := incVal_mod (fieldOf c u) n
+  obtain ⟨_, hi2⟩ := incVal_bounds (f := fieldOf c u) true hn
+  have hpos : 0 ≤ unitSecs u := by cases u <;> decide
+  have hmul : incVal (fieldOf c u) n true * unitSecs u ≤ n * unitSecs u := mul_le_of_le hi2 hpos
+  simp only [expectedLocal, startOfPeriod]
+  cases m
+  · simp
+  · have e : (fieldOf c u / n + 1) * n * unitSecs u
+        = fieldOf c u * unitSecs u + incVal (fieldOf c u) n true * unitSecs u := by
+      rw [← hmod, Int.add_mul]
+    simp only [if_true]; rw [e]; omega
+
+
+/-- the specification's boundary of a fixed-length unit, written the way the code computes it:
+start of the current unit plus the increment -/
+theorem expectedLocal_eq (c : Civil) (L : Int) (u : IUnit) (n : Int) (m : Bool) :
+    expectedLocal c L u n m = startOfUnit c L u + incVal (fieldOf c u) n m * unitSecs u := by
+  have hmod := incVal_mod (fieldOf c u) n
+  simp only [expectedLocal, startOfPeriod]
+  cases m
+  · simp [incVal]
+  · have e : (fieldOf c u / n + 1) * n * unitSecs u
+        = fieldOf c u * unitSecs u + incVal (fieldOf c u) n true * unitSecs u := by
+      rw [← hmod, Int.add_mul]
+    simp only [if_true]; rw [e]; omega
 
 end Log4rs.TimeTrigger
